@@ -15,6 +15,7 @@ def edge_trees():
         _t("E_dep", Cfg("X", B, "x"), Cfg("Y", B, "y", depends=["X"], defaults=[("y", None)]), Cfg("Z", I, "z", depends=["Y"], defaults=[("3", None)])),
         _t("E_prompt_if", Cfg("X", B, "x"), Cfg("Y", B, "y", prompt_if="X", defaults=[("y", "!X")])),
         _t("E_default_cond", Cfg("X", B, "x"), Cfg("Y", I, "y", defaults=[("7", "X"), ("1", None)]), Cfg("W", B, None, defaults=[("y", "X")])),
+        _t("E_default_order", Cfg("X", B, "x", defaults=[("y", None)]), Cfg("Y", B, "y", defaults=[("n", "X"), ("y", None)]), Cfg("YI", I, "yi", defaults=[("0", "X"), ("5", None)]), Cfg("Z", I, "z", depends=["Y"], defaults=[("3", None)])),
         _t("E_default_val", Cfg("X", I, "x", defaults=[("4", None)]), Cfg("Y", I, "y", defaults=[("X", None)]), Cfg("YS", S, "ys", defaults=[("X", None)])),
         _t("E_default_bool", Cfg("X", B, "x"), G, Cfg("Y", B, "y", defaults=[("X", "G"), ("y", None)])),
         _t("E_range_bound", Cfg("X", I, "x", defaults=[("4", None)]), Cfg("Y", I, "y", ranges=[("X", "100", None)], defaults=[("1", None)]), Cfg("YH", I, "yh", ranges=[("0", "X", None)], defaults=[("50", None)])),
